@@ -32,7 +32,8 @@ HEADER = (
     "Definition sel1 (q : bool * (bool * Z * Z) * (bool * Z * Z) * (bool * Z * Z)) : bool :=\n"
     "  match q with (b, x, y, (s', m', e')) =>\n"
     "    match select32 b x y with\n"
-    "    | Some (s, m, e) => andb (andb (Bool.eqb s s') (Z.eqb m m')) (Z.eqb e e')\n"
+    "    | Some (s, m, e) => orb (andb (Z.eqb m 0) (Z.eqb m' 0))   (* a zero stays a zero; its SIGN is not part of the property *)\n"
+    "                            (andb (andb (Bool.eqb s s') (Z.eqb m m')) (Z.eqb e e'))\n"
     "    | None => false\n"
     "    end\n"
     "  end.\n"
@@ -42,7 +43,7 @@ MODEL_TARGETS = ["Model/Mixup.vo", "Lib/FloatSelect.vo"]
 # Print Assumptions of the three IEEE-level theorems lists the stdlib axioms Flocq / Reals import
 ALLOWED_AXIOMS = ("ClassicalDedekindReals.", "FunctionalExtensionality.", "Classical_Prop.")
 SELECT_SAMPLE = 12
-SHARD = 150
+SHARD = 200
 RULE = ("(feature entries: all-distinct float32 values 1e-45..1e8 traced by exact bit lookup; per call up to 12 "
         "entries, extreme magnitudes / zeros / subnormals first, are also checked bit for bit against Flocq's "
         "binary32 evaluation of mask*x + ~mask*x') one call -- or a sequence of 2-4 calls sharing in-place refreshed tensor objects (mi_scores, x, y) -- of "
@@ -72,8 +73,9 @@ ASSUMPTIONS = [
     "float32 round-off of lambda and of the convex combination is outside the exact model (tolerance 2e-6 * scale)",
     "feature entries are finite float32 values of any magnitude incl. subnormals and zero: for those, "
     "mask*x + ~mask*x' returns the selected entry bit for bit (Props/C19.v mixup_entry_ieee_exact), except for the "
-    "sign of a zero entry (-0.0 + 0.0 = +0.0) -- the oracle identifies -0.0 and 0.0, the select32 correspondence "
-    "checks even that sign against IEEE; inf / nan embeddings are outside the model and never generated "
+    "sign of a zero entry (-0.0 + 0.0 = +0.0) -- the oracle and the select32 correspondence identify -0.0 and 0.0 (a "
+    "zero must stay a zero; which zero is not part of the property, and an equivalent formula such as "
+    "partner.masked_fill(keep, 0) + own * keep produces the other one: harmless rewrite C19_h5); inf / nan embeddings are outside the model and never generated "
     "(bool * inf = nan in the code)",
     "torch's float32 multiply / add are IEEE binary32 round-to-nearest-even as formalised by Flocq (checked per "
     "run on up to 12 entries per call)",
@@ -243,7 +245,7 @@ def gen_multi(rng, tier):
 
 
 def generate(rng, tier):
-    n, m = (1150, 220) if tier == "quick" else (32000, 5000)
+    n, m = (1000, 180) if tier == "quick" else (32000, 5000)
     return [gen_case(rng, tier) for _ in range(n)] + [gen_multi(rng, tier) for _ in range(m)]
 
 
@@ -481,7 +483,24 @@ def fail(key, what, **kw):
     return d
 
 
+_ANALYSED = {}
+
+
 def analyse(case, obs):
+    """memoised per (case, observation) object pair: oracle, correspondence printer, signature and statistics all
+    need the same recovery"""
+    key = (id(case), id(obs))
+    hit = _ANALYSED.get(key)
+    if hit is not None and hit[0] is case and hit[1] is obs:
+        return hit[2]
+    if len(_ANALYSED) > 200000:
+        _ANALYSED.clear()
+    res = analyse_uncached(case, obs)
+    _ANALYSED[key] = (case, obs, res)
+    return res
+
+
+def analyse_uncached(case, obs):
     """Returns (failure | None, recovered | None).  recovered = dict(partner, mask, lam, self_rows, mixed_rows)."""
     B, F, D, mode = case["B"], case["F"], case["D"], case["mode"]
     tag = f"{mode or 'off'}:{case['target']}"
